@@ -52,9 +52,16 @@ def api_level(rep, tier_, rng):
 def run(rep, tier_, rng):
     run_engine_a(rep, "C15", tier_, rng, FNS, TAGS, n_quick=2500, n_thorough=40000, extra=api_level,
                  make=allcases.make, spec=allcases.spec)
-    rep.assumptions.append("abs/exp/log/cos/sin and the gamma family on rectangles are not decided by this check")
+    from props import c15e
+    rep.coverage.update(c15e.run_elementary(rep, tier_, rng, budget=(60 if tier_ == "quick" else 600)))
+    rep.assumptions.append("abs/exp/log/cos/sin on rectangles are decided point-wise at sampled member points by Coq Interval certificates (a necessary condition only; exploration level for that part); the gamma family on rectangles is not decided by this check")
 
 
 def replay(rep, path):
+    import json
+    r = json.load(open(path)); r = r.get("replay", r)
+    if isinstance(r, dict) and r.get("clause") == "containment" and str(r.get("fn", "")).startswith(("iv.", "ivmpc.")):
+        from props import c15e
+        rep.coverage.update(c15e.replay_elementary(rep, r)); return
     from props import c02
     c02.replay(rep, path)
